@@ -1179,8 +1179,13 @@ class VerilogCase(ast.AST):
             if len(sts) > 1:
                 str += 'end\n'
                 
-        str += 'default:'
         sts = self.default
+        
+        if len(sts) > 0:
+            # a match without "case _" has no default arm
+            # (an empty "default:" before endcase is not valid Verilog)
+            str += 'default:'
+            
         if len(sts) > 1:
             str += 'begin\n'
 
